@@ -42,7 +42,8 @@ def main():
             assert txt.count(a) >= 1, 'text not found in VarMQ.tla: ' + a
             txt = txt.replace(a, b)
         open(os.path.join(sd, 'VarMQ.tla'), 'w').write(txt)
-        mod, d = models.write_model(config, sc, live)
+        # only invariants with a consequence a client can observe: the counterexample must run on until the property itself fails
+        mod, d = models.write_model(config, sc, live, gatelike=True, invs=models.OBSERVABLE)
         r = vlib.run_tlc(mod, os.path.join(d, mod + '.cfg'), sc, workers=vlib.NCPU, tag='cex', timeout=1500, heap='8g', spec_dir=sd,
                          extra_modules=[os.path.join(d, mod + '.tla')])
         if not r.get('violated'):
@@ -68,6 +69,9 @@ def main():
         v, _ = check.tlc_obs_confirm(sc, cand, invs, 'cex')
         print('replayed on the code with %s: result %s, diverged choices %s, formula violated: %s' % (sid, cand['end'].get('result'), cand['end'].get('diverged'), v))
         if not v:
+            if os.environ.get('CEX_KEEP'):
+                json.dump(prog, open(os.environ['CEX_KEEP'], 'w'))
+                open(os.environ['CEX_KEEP'] + '.tlc', 'w').write(r['out'])
             return 1
         rp = check.replay_prog(prog, (cand.get('end') or {}).get('choices') or prog['sched']['choices'])
         json.dump({'properties': [pid], 'origin': '%s via TLC counterexample of configuration %s (%s)' % (sid, config, r['violated']), 'formula': v, 'program': rp},
